@@ -4,19 +4,25 @@ Open Scope Z_scope.
 
 Inductive case :=
 | CHash (name : string) (n : Z) (srv gw : option Z)         (* observed GetShardID / ShardIDFor *)
-| CHist (id : string) (n : Z) (tr : list (op * obs)).       (* ops with what the real limiter did *)
+| CHist (id : string) (n : Z) (tr : list (op * obs))        (* ops with what the real limiter did *)
+| CGw (tr : list (gwop * gwres)).                           (* announcements served to the real clientSets, servers addressed *)
 
 Definition agree_hist (id : string) (n : Z) (tr : list (op * obs)) : bool :=
   forall2b (fun (m : res * list (Z * store)) (b : obs) =>
               (res_eqb (fst m) (ores b) && snap_eqb (snd m) (snap b))%bool)
            (run (init id n) (map fst tr)) (map snd tr).
 
-(* clause layout: agree, range, both_sides, guard, serve, names, drop, own_shard *)
+Definition agree_gw (tr : list (gwop * gwres)) : bool :=
+  forall2b gwres_eqb (gw_run gw_init (map fst tr)) (map snd tr).
+
+(* clause layout: agree, range, both_sides, guard, serve, names, drop, own_shard, addressed *)
 Definition eval (c : case) : list bool :=
   match c with
   | CHash name n srv gw =>
       [ (opt_eqb Z.eqb (shard_id name n) srv && opt_eqb Z.eqb (gw_shard_id name n) gw)%bool;
-        range_ok n srv; both_sides_ok srv gw; true; true; true; true; true ]
+        range_ok n srv; both_sides_ok srv gw; true; true; true; true; true; true ]
   | CHist id n tr =>
-      agree_hist id n tr :: true :: true :: hist_ok n [] tr
+      agree_hist id n tr :: true :: true :: hist_ok n [] tr ++ [true]
+  | CGw tr =>
+      [ agree_gw tr; true; true; true; true; true; true; true; gw_hist_ok 0 [] tr ]
   end.
